@@ -58,6 +58,11 @@ class SimEnv:
         self.stats: Dict[str, Any] = {"pool_sizes": [], "choices": 0, "sched_steps": 0,
                                       "unsimulated_concurrency": 0}
         self._pool_no = 0
+        # simulated wall clock: a fixed epoch, a seeded phase within the second, a small step per reading and a
+        # seeded jump at every operation boundary (so that two writes land in the same or in different seconds)
+        self.clock_seed: int = int(cfg.get("clock_seed", 0))
+        self._clock_now: float = 1_700_000_000.0 + (self.clock_seed % 1000) / 1000.0
+        self._clock_state: int = self.clock_seed
         self._fork_ok = 0
         self.in_worker: Optional[int] = None
         self._worker_events: List[Dict[str, Any]] = []
@@ -172,9 +177,21 @@ class SimEnv:
         self.log("fault_fired", kind=f["kind"], path=rel, **kw)
 
     # -- installation ----------------------------------------------------------------------------
+    def sim_time(self) -> float:
+        self._clock_now += 0.0001
+        return self._clock_now
+
+    def clock_jump(self) -> None:
+        """Called at every operation boundary."""
+        self._clock_state = (self._clock_state * 6364136223846793005 + 1442695040888963407) % (1 << 64)
+        self._clock_now += (0.0, 0.003, 0.25, 0.6, 0.999, 1.0, 2.5, 61.0)[(self._clock_state >> 33) % 8]
+
     def install(self) -> None:
         global _CURRENT
         _CURRENT = self
+        import time as _time
+        _time.time = self.sim_time
+        _time.time_ns = lambda: int(self.sim_time() * 1e9)
         import multiprocessing
         import multiprocessing.pool
         import multiprocessing.process
